@@ -13,7 +13,7 @@ PROP = 'C04'
 
 SIZES = [0, 1, 4096, 65537, 2 * 1024 * 1024]
 BEHAVIOURS = ['stdout', 'd3', 'neither', 'both', 'write1', 'write1_d3', 'del3', 'fail_clean', 'partial_fail_stdout',
-              'partial_fail_d3', 'kill_TERM', 'kill_KILL', 'd3_then_fail', 'symlink3_fail', 'symlink3_ok']
+              'partial_fail_d3', 'kill_TERM', 'kill_KILL', 'd3_then_fail', 'symlink3_fail', 'symlink3_ok', 'mkdir3_fail']
 PRIORS = ['absent', 'generated_stdout', 'generated_d3', 'generated_removed', 'user', 'absent+staletmp', 'generated_d3+staletmp',
           'absent+staletmplink', 'generated_stdout+staletmplink']
 
@@ -69,6 +69,9 @@ def script_for(beh, size, slow):
     elif beh == 'symlink3_ok':
         # the output is a symbolic link to a data file the script made
         body = emit_cmd('n', size, '$1.data') + '\nln -s "$1.data" "$3"'
+    elif beh == 'mkdir3_fail':
+        # the script makes $3 a directory (as a script that builds a tree would), puts something inside, and fails
+        body = 'mkdir "$3"\n' + emit_cmd('n', max(1, min(size, 4096)), '$3/part') + '\nexit 6'
     elif beh.startswith('kill_'):
         body = emit_cmd('n', max(1, size // 2), '$3') + '\nkill -s %s $$\nsleep 5' % beh.split('_')[1]
     else:
@@ -98,7 +101,7 @@ def expected(beh, size, prior, old):
         return False, old, r'exit 4'
     if beh.startswith('kill_'):
         return False, old, None
-    if beh == 'symlink3_fail':
+    if beh in ('symlink3_fail', 'mkdir3_fail'):
         return False, old, r'exit 6'
     if beh == 'symlink3_ok':
         return True, gen_bytes('n', size), None
@@ -243,6 +246,18 @@ def case(item):
             tev = [e for e in events if e.split(' ', 1)[1] == 't']
             if tev:
                 anoms.append(dict(key='user-file-touched', what='%s: inotify saw %s on the user file' % (where, tev[:4])))
+        # ---- a failed build must not stand in the way of the next one: the rule is repaired and the target asked for again
+        if not want_ok and prior != 'user' and not anoms:
+            common.write_file(os.path.join(top, 't.do'), script_for('d3', 10, False).replace('tr "\\0" "n"', 'tr "\\0" "r"'))
+            os.utime(os.path.join(top, 't.do'), ns=(11 * 10 ** 17, 11 * 10 ** 17))
+            r2, _ = pj.run(['redo-ifchange', 't'], verif_log=False, timeout=60)
+            obs['commands'] += 1
+            obs['repairs_after_a_failed_build'] = 1
+            after2 = common.read_file(tpath)
+            left2 = [n for n in os.listdir(top) if n.endswith('.redo.tmp')]
+            if r2.status == 'exit' and (r2.rc != 0 or after2 != b'r' * 10 or left2):
+                anoms.append(dict(key='repair-after-failure:%s' % beh, what='%s: after the rule was repaired redo-ifchange exits %s, target %r, left %s: %s'
+                                  % (where, r2.rc, (after2 or b'')[:20], left2, (r2.err + r2.out)[-300:].replace('\n', ' | '))))
         if use_strace and os.path.exists(st_file):
             anoms.extend(strace_check(st_file, tpath, beh))
             obs['strace_cases'] = 1
@@ -333,11 +348,11 @@ def items(tier, rnd):
 
 
 RULE = ('product of script behaviour {stdout, $3, neither, both, writes $1, writes $1 and $3, creates then deletes $3, exit 5, partial output then '
-        'exit 3 (stdout / $3), complete $3 then exit 4, killed by TERM / KILL after half the output} x output size {0, 1, 4096, 65537, 2 MiB} x '
+        'exit 3 (stdout / $3), complete $3 then exit 4, killed by TERM / KILL after half the output, $3 made a dangling symbolic link / a directory with a file inside and then exit 6} x output size {0, 1, 4096, 65537, 2 MiB} x '
         'prior target state {absent, generated via stdout, generated via $3, generated then removed, user file}; one command each. Oracle: '
         'expected (exit ok?, status text 206/207/script status, target bytes, no *.redo.tmp) from the generator; an inotify log in which the '
         'target name may only appear as MOVED_TO or DELETE; for outputs >= 64 KiB a slow writer and a polling reader that must only ever see the '
-        'complete old or complete new bytes; thorough adds an strace-attributed subset (no redo process opens the target for writing). '
+        'complete old or complete new bytes; after every failing behaviour the rule is repaired and `redo-ifchange` must build the target (a failed build does not stand in the way of the next one); thorough adds an strace-attributed subset (no redo process opens the target for writing). '
         'Non-trivial: the script actually runs (all but most user-file cases). Distinct: (behaviour, size, prior, slow).')
 ASSUME = ['a user-provided file at the target name is left alone with exit 0 (C11)', 'when the script itself writes $1 the previous content cannot be preserved by redo; only status 206 and temp cleanup are judged']
 
